@@ -177,6 +177,18 @@ class Polarity:
 @RULES.rule("C01", "R01c", "z-order polarity: layers reach COLR in document order", floor=6)
 def r01c(model: Model, rr: RuleResult):
     fi = model.func("color_glyph", "_painted_layers")
+    # layers are never de-duplicated: painting a translucent layer twice is not painting it once
+    from ..dataflow import inline_new_helpers as _inl1c
+    dd = [c for c in calls_in(fi, nested=True) if callee_tail(c) in ("groupby", "fromkeys", "unique_everseen", "unique_justseen")
+          or (callee_tail(c) in ("set", "frozenset", "dict") and c.args and any(isinstance(x, ast.Name) and x.id in ("layers", "child_nodes") for x in ast.walk(c.args[0])))]
+    for c in calls_in(fi, nested=True):
+        if not dd and isinstance(c.func, ast.Name):
+            e2 = _inl1c(c, fi, depth=2)
+            dd += [x for x in ast.walk(e2) if isinstance(x, ast.Call) and callee_tail(x) in ("groupby", "fromkeys", "unique_everseen", "unique_justseen")]
+    if dd:
+        rr.bad(fi, dd[0], f"_painted_layers collapses repeated layers (`{short(dd[0], 60)}`): two identical translucent layers in a row (a doubled 25% shadow) cover 1-(1-a)^2, not a; the "
+               f"glyph is painted lighter than its source", construct="_painted_layers: equal layers de-duplicated")
+        return
     pz = Polarity(fi).run()
     if len(pz.sinks) < 2:
         raise AnalysisError("_painted_layers: expected a PaintColrLayers(...) sink and a return sink")
